@@ -23,7 +23,8 @@ end G
 /-- Equality of two interaction trees: peel equal sends, split the if-chains / matches over the
     reply on both sides, and close each combination of cases by simplification. -/
 macro "prog_eq" : tactic => `(tactic|
-  (simp only [expect, finishResetSeq, ownReport?_eq_some, anyReport?_eq_some]
+  (simp only [ctrl_unfold, expect, finishResetSeq, Prog.send_bind, Prog.ite_bind, Prog.done_bind, Prog.fail_bind,
+     ownReport?_eq_some, anyReport?_eq_some]
    repeat' (first
      | rfl
      | (apply send_congr; intro _)
@@ -117,7 +118,7 @@ macro "switch_page_eq" a:ident : tactic => `(tactic|
    induction fuel with
    | zero => rfl
    | succ f ih =>
-     simp only [Generated.Controller.switchPageLoop, Flipdot.switchPage, ih]
+     simp only [Generated.Controller.switchPageLoop, Flipdot.switchPage, ih, ctrl_unfold, Prog.send_bind, Prog.ite_bind, Prog.done_bind, Prog.fail_bind, expect]
      apply send_congr; intro r
      cases ho : ownReport? $a r with
      | none =>
@@ -126,7 +127,7 @@ macro "switch_page_eq" a:ident : tactic => `(tactic|
      | some s =>
        have hr := (ownReport?_eq_some).1 ho
        subst hr
-       cases s <;> simp [ownReport?_eq_some, expect]))
+       cases s <;> simp [ctrl_unfold, Prog.send_bind, Prog.ite_bind, ownReport?_eq_some, expect]))
 
 /-- `Sign::load_next_page` = `switch_page(PageLoaded, PageShown, LoadNextPage)`. -/
 theorem loadNextPage_eq (a : UInt16) : ∀ fuel, G.loadNextPage a fuel = Flipdot.loadNextPage a fuel := by
